@@ -78,14 +78,21 @@ def check_run(scn, run, drv, res, *, monitors_on=(), corr=("sim", "ticker"), cas
     return n
 
 
-def scenario_family(rng, tier, *, nested=True, flat=True, callbacks=True, depth=3, count=None):
+def scenario_family(rng, tier, *, nested=True, flat=True, callbacks=True, depth=3, count=None, stims=0.3):
     count = count or (40 if tier == "quick" else 400)
     out = []
+    rs = random.Random(rng.randrange(1 << 30))   # own stream: the scenarios themselves are as before
     for i in range(count):
         if nested and (not flat or i % 2):
             scn = S.gen_nested(rng, depth=rng.randrange(1, depth + 1), callbacks=callbacks, max_n=7 if tier == "quick" else 9)
         else:
             scn = S.gen_flat(rng, callbacks=callbacks, max_n=7 if tier == "quick" else 12)
+        if callbacks and rs.random() < stims and "stims" not in scn:
+            # external stimuli between ticks (distinct instants that are no tick instants): interrupts of devices
+            # at any depth, periodic, one-shot or quiet ones
+            names = [d["name"] for d in S.devices(scn)]
+            times = rs.sample(range(1, 14), rs.randrange(1, 4))
+            scn["stims"] = sorted([{"real": k * 900_000 + 111, "comp": rs.choice(names)} for k in times], key=lambda x: x["real"])
         out.append(scn)
     return out
 
